@@ -1,1 +1,1043 @@
-// placeholder
+//! secp256k1 reference implementation written from the specifications (SEC1 v2, SEC2, RFC 6979)
+//! on top of `num-bigint` only. Meant as a test oracle: simple, not constant time, not fast.
+//!
+//! Curve: y^2 = x^3 + 7 over F_p, p = 2^256 - 2^32 - 977, prime group order n, cofactor 1.
+
+use crate::refimpl::hashes::{hmac, HashAlg};
+use num_bigint::BigUint;
+use num_traits::{One, Zero};
+use std::sync::OnceLock;
+
+const P_HEX: &str = "FFFFFFFFFFFFFFFFFFFFFFFFFFFFFFFFFFFFFFFFFFFFFFFFFFFFFFFEFFFFFC2F";
+const N_HEX: &str = "FFFFFFFFFFFFFFFFFFFFFFFFFFFFFFFEBAAEDCE6AF48A03BBFD25E8CD0364141";
+const GX_HEX: &str = "79BE667EF9DCBBAC55A06295CE870B07029BFCDB2DCE28D959F2815B16F81798";
+const GY_HEX: &str = "483ADA7726A3C4655DA4FBFC0E1108A8FD17B448A68554199C47D08FFB10D4B8";
+
+fn parse_hex(s: &str) -> BigUint {
+    BigUint::parse_bytes(s.as_bytes(), 16).expect("valid hex constant")
+}
+
+fn p_ref() -> &'static BigUint {
+    static P: OnceLock<BigUint> = OnceLock::new();
+    P.get_or_init(|| parse_hex(P_HEX))
+}
+
+fn n_ref() -> &'static BigUint {
+    static N: OnceLock<BigUint> = OnceLock::new();
+    N.get_or_init(|| parse_hex(N_HEX))
+}
+
+/// Field prime p.
+pub fn p() -> BigUint {
+    p_ref().clone()
+}
+
+/// Group order n.
+pub fn n() -> BigUint {
+    n_ref().clone()
+}
+
+/// (n-1)/2: the largest "low" s value.
+pub fn half_n() -> BigUint {
+    (n_ref() - BigUint::one()) >> 1
+}
+
+#[derive(Debug, Clone, PartialEq, Eq)]
+pub enum Point {
+    Infinity,
+    Affine { x: BigUint, y: BigUint },
+}
+
+/// The generator.
+pub fn g() -> Point {
+    Point::Affine { x: parse_hex(GX_HEX), y: parse_hex(GY_HEX) }
+}
+
+// ---------------------------------------------------------------------------------------------
+// Arithmetic modulo a prime m. All inputs are expected to be reduced (< m).
+// ---------------------------------------------------------------------------------------------
+
+fn mod_add(a: &BigUint, b: &BigUint, m: &BigUint) -> BigUint {
+    (a + b) % m
+}
+
+fn mod_sub(a: &BigUint, b: &BigUint, m: &BigUint) -> BigUint {
+    // b < m, so a + m - b never underflows
+    ((a + m) - b) % m
+}
+
+fn mod_mul(a: &BigUint, b: &BigUint, m: &BigUint) -> BigUint {
+    (a * b) % m
+}
+
+/// Inverse modulo the prime m by Fermat's little theorem: a^(m-2). `a` must be non-zero mod m.
+fn mod_inv(a: &BigUint, m: &BigUint) -> BigUint {
+    assert!(!(a % m).is_zero(), "no inverse of zero");
+    a.modpow(&(m - BigUint::from(2u32)), m)
+}
+
+/// Square root modulo p (p = 3 mod 4, so a^((p+1)/4) is a root whenever one exists).
+fn sqrt_mod_p(a: &BigUint) -> Option<BigUint> {
+    let p = p_ref();
+    let e = (p + BigUint::one()) >> 2;
+    let r = a.modpow(&e, p);
+    if mod_mul(&r, &r, p) == a % p {
+        Some(r)
+    } else {
+        None
+    }
+}
+
+fn is_odd(v: &BigUint) -> bool {
+    v.bit(0)
+}
+
+/// y^2 = x^3 + 7 mod p with both coordinates < p. Infinity counts as on the curve.
+pub fn is_on_curve(pt: &Point) -> bool {
+    match pt {
+        Point::Infinity => true,
+        Point::Affine { x, y } => {
+            let p = p_ref();
+            if x >= p || y >= p {
+                return false;
+            }
+            let lhs = mod_mul(y, y, p);
+            let rhs = (x * x * x + BigUint::from(7u32)) % p;
+            lhs == rhs
+        }
+    }
+}
+
+/// Negation: (x, y) -> (x, p - y).
+pub fn neg(a: &Point) -> Point {
+    match a {
+        Point::Infinity => Point::Infinity,
+        Point::Affine { x, y } => {
+            let p = p_ref();
+            let y = y % p;
+            let ny = if y.is_zero() { y } else { p - y };
+            Point::Affine { x: x % p, y: ny }
+        }
+    }
+}
+
+/// Textbook affine group law (chord and tangent). Inputs must be curve points.
+pub fn add(a: &Point, b: &Point) -> Point {
+    let p = p_ref();
+    let (x1, y1, x2, y2) = match (a, b) {
+        (Point::Infinity, _) => return b.clone(),
+        (_, Point::Infinity) => return a.clone(),
+        (Point::Affine { x: x1, y: y1 }, Point::Affine { x: x2, y: y2 }) => {
+            (x1 % p, y1 % p, x2 % p, y2 % p)
+        }
+    };
+    let lambda = if x1 == x2 {
+        if mod_add(&y1, &y2, p).is_zero() {
+            // P + (-P), which also covers doubling a point with y = 0
+            return Point::Infinity;
+        }
+        // same x and not opposite => same point: tangent slope 3x^2 / 2y  (a = 0)
+        let num = mod_mul(&BigUint::from(3u32), &mod_mul(&x1, &x1, p), p);
+        let den = mod_mul(&BigUint::from(2u32), &y1, p);
+        mod_mul(&num, &mod_inv(&den, p), p)
+    } else {
+        let num = mod_sub(&y2, &y1, p);
+        let den = mod_sub(&x2, &x1, p);
+        mod_mul(&num, &mod_inv(&den, p), p)
+    };
+    let x3 = mod_sub(&mod_sub(&mod_mul(&lambda, &lambda, p), &x1, p), &x2, p);
+    let y3 = mod_sub(&mod_mul(&lambda, &mod_sub(&x1, &x3, p), p), &y1, p);
+    Point::Affine { x: x3, y: y3 }
+}
+
+// ---------------------------------------------------------------------------------------------
+// Jacobian coordinates (X, Y, Z) <-> affine (X/Z^2, Y/Z^3); Z = 0 is the point at infinity.
+// Used only inside `mul` to avoid one field inversion per group operation.
+// ---------------------------------------------------------------------------------------------
+
+#[derive(Clone)]
+struct Jac {
+    x: BigUint,
+    y: BigUint,
+    z: BigUint,
+}
+
+fn jac_infinity() -> Jac {
+    Jac { x: BigUint::one(), y: BigUint::one(), z: BigUint::zero() }
+}
+
+fn to_jac(pt: &Point) -> Jac {
+    match pt {
+        Point::Infinity => jac_infinity(),
+        Point::Affine { x, y } => {
+            let p = p_ref();
+            Jac { x: x % p, y: y % p, z: BigUint::one() }
+        }
+    }
+}
+
+fn from_jac(j: &Jac) -> Point {
+    if j.z.is_zero() {
+        return Point::Infinity;
+    }
+    let p = p_ref();
+    let zi = mod_inv(&j.z, p);
+    let zi2 = mod_mul(&zi, &zi, p);
+    let zi3 = mod_mul(&zi2, &zi, p);
+    Point::Affine { x: mod_mul(&j.x, &zi2, p), y: mod_mul(&j.y, &zi3, p) }
+}
+
+/// Doubling for a = 0:  S = 4XY^2, M = 3X^2, X' = M^2 - 2S, Y' = M(S - X') - 8Y^4, Z' = 2YZ.
+fn jac_double(a: &Jac) -> Jac {
+    let p = p_ref();
+    if a.z.is_zero() || a.y.is_zero() {
+        return jac_infinity();
+    }
+    let yy = mod_mul(&a.y, &a.y, p);
+    let s = (BigUint::from(4u32) * &a.x * &yy) % p;
+    let m = (BigUint::from(3u32) * &a.x * &a.x) % p;
+    let two_s = mod_add(&s, &s, p);
+    let x3 = mod_sub(&mod_mul(&m, &m, p), &two_s, p);
+    let yyyy8 = (BigUint::from(8u32) * &yy * &yy) % p;
+    let y3 = mod_sub(&mod_mul(&m, &mod_sub(&s, &x3, p), p), &yyyy8, p);
+    let z3 = (BigUint::from(2u32) * &a.y * &a.z) % p;
+    Jac { x: x3, y: y3, z: z3 }
+}
+
+/// General addition:
+/// U1 = X1 Z2^2, U2 = X2 Z1^2, S1 = Y1 Z2^3, S2 = Y2 Z1^3, H = U2 - U1, R = S2 - S1,
+/// X3 = R^2 - H^3 - 2 U1 H^2, Y3 = R (U1 H^2 - X3) - S1 H^3, Z3 = H Z1 Z2.
+fn jac_add(a: &Jac, b: &Jac) -> Jac {
+    let p = p_ref();
+    if a.z.is_zero() {
+        return b.clone();
+    }
+    if b.z.is_zero() {
+        return a.clone();
+    }
+    let z1z1 = mod_mul(&a.z, &a.z, p);
+    let z2z2 = mod_mul(&b.z, &b.z, p);
+    let u1 = mod_mul(&a.x, &z2z2, p);
+    let u2 = mod_mul(&b.x, &z1z1, p);
+    let s1 = mod_mul(&a.y, &mod_mul(&z2z2, &b.z, p), p);
+    let s2 = mod_mul(&b.y, &mod_mul(&z1z1, &a.z, p), p);
+    if u1 == u2 {
+        return if s1 == s2 { jac_double(a) } else { jac_infinity() };
+    }
+    let h = mod_sub(&u2, &u1, p);
+    let r = mod_sub(&s2, &s1, p);
+    let hh = mod_mul(&h, &h, p);
+    let hhh = mod_mul(&hh, &h, p);
+    let v = mod_mul(&u1, &hh, p);
+    let two_v = mod_add(&v, &v, p);
+    let x3 = mod_sub(&mod_sub(&mod_mul(&r, &r, p), &hhh, p), &two_v, p);
+    let y3 = mod_sub(&mod_mul(&r, &mod_sub(&v, &x3, p), p), &mod_mul(&s1, &hhh, p), p);
+    let z3 = mod_mul(&h, &mod_mul(&a.z, &b.z, p), p);
+    Jac { x: x3, y: y3, z: z3 }
+}
+
+/// Scalar multiplication k * pt with a fixed 4-bit window, most significant nibble first:
+/// acc = 16 * acc + table[nibble]. `k` may have any size and is used as it is (no reduction).
+pub fn mul(k: &BigUint, pt: &Point) -> Point {
+    if k.is_zero() || *pt == Point::Infinity {
+        return Point::Infinity;
+    }
+    let base = to_jac(pt);
+    // table[i] = i * pt
+    let mut table: Vec<Jac> = Vec::with_capacity(16);
+    table.push(jac_infinity());
+    for i in 1..16 {
+        let next = jac_add(&table[i - 1], &base);
+        table.push(next);
+    }
+    let mut acc = jac_infinity();
+    for byte in k.to_bytes_be() {
+        for nibble in [byte >> 4, byte & 0x0f] {
+            for _ in 0..4 {
+                acc = jac_double(&acc);
+            }
+            acc = jac_add(&acc, &table[nibble as usize]);
+        }
+    }
+    from_jac(&acc)
+}
+
+/// d * G
+pub fn pubkey(d: &BigUint) -> Point {
+    mul(d, &g())
+}
+
+// ---------------------------------------------------------------------------------------------
+// Octet string conversions (SEC1 2.3)
+// ---------------------------------------------------------------------------------------------
+
+/// 32-byte big-endian, left padded with zeros. Panics if v >= 2^256.
+pub fn be32(v: &BigUint) -> [u8; 32] {
+    let bytes = v.to_bytes_be(); // zero -> [0]
+    assert!(bytes.len() <= 32, "be32: value does not fit into 256 bits");
+    let mut out = [0u8; 32];
+    out[32 - bytes.len()..].copy_from_slice(&bytes);
+    out
+}
+
+/// Big-endian bytes (any length, empty = 0) to integer.
+pub fn from_be(bytes: &[u8]) -> BigUint {
+    BigUint::from_bytes_be(bytes)
+}
+
+/// SEC1 encoding: 33 bytes (02/03 || X) if compressed else 65 bytes (04 || X || Y).
+/// Panics on Infinity.
+pub fn encode_point(pt: &Point, compressed: bool) -> Vec<u8> {
+    match pt {
+        Point::Infinity => panic!("encode_point: point at infinity"),
+        Point::Affine { x, y } => {
+            let mut out = Vec::with_capacity(65);
+            if compressed {
+                out.push(if is_odd(y) { 0x03 } else { 0x02 });
+                out.extend_from_slice(&be32(x));
+            } else {
+                out.push(0x04);
+                out.extend_from_slice(&be32(x));
+                out.extend_from_slice(&be32(y));
+            }
+            out
+        }
+    }
+}
+
+/// Strict SEC1 decoding: only 33-byte 02/03 and 65-byte 04 encodings of points on the curve with
+/// coordinates < p. Everything else -> None.
+pub fn decode_point(bytes: &[u8]) -> Option<Point> {
+    match (bytes.len(), bytes.first().copied()) {
+        (33, Some(prefix)) if prefix == 0x02 || prefix == 0x03 => {
+            lift_x(&from_be(&bytes[1..33]), prefix == 0x03)
+        }
+        (65, Some(0x04)) => {
+            let pt = Point::Affine { x: from_be(&bytes[1..33]), y: from_be(&bytes[33..65]) };
+            // is_on_curve also enforces x < p and y < p
+            if is_on_curve(&pt) {
+                Some(pt)
+            } else {
+                None
+            }
+        }
+        _ => None,
+    }
+}
+
+/// Decompression: the curve point with the given x whose y has the requested parity.
+/// None if x >= p or x^3 + 7 is not a square mod p.
+pub fn lift_x(x: &BigUint, y_odd: bool) -> Option<Point> {
+    let p = p_ref();
+    if x >= p {
+        return None;
+    }
+    let rhs = (x * x * x + BigUint::from(7u32)) % p;
+    let mut y = sqrt_mod_p(&rhs)?;
+    if is_odd(&y) != y_odd {
+        if y.is_zero() {
+            return None; // y = 0 has no odd counterpart (cannot happen on this curve anyway)
+        }
+        y = p - y;
+    }
+    Some(Point::Affine { x: x.clone(), y })
+}
+
+// ---------------------------------------------------------------------------------------------
+// ECDSA (SEC1 4.1)
+// ---------------------------------------------------------------------------------------------
+
+/// recid bit0 = parity of R.y (flipped when s was replaced by n - s), bit1 = R.x >= n.
+#[derive(Debug, Clone, PartialEq, Eq)]
+pub struct Sig {
+    pub r: BigUint,
+    pub s: BigUint,
+    pub recid: u8,
+}
+
+/// Plain ECDSA with an explicit nonce: R = k*G, r = R.x mod n, s = k^-1 (z + r d) mod n.
+/// None if k == 0 mod n, r == 0 or s == 0. z is reduced mod n. If `low_s` and s > (n-1)/2 then
+/// s := n - s and the parity bit of recid is flipped.
+pub fn sign_with_k(d: &BigUint, z: &BigUint, k: &BigUint, low_s: bool) -> Option<Sig> {
+    let n = n_ref();
+    let k = k % n;
+    if k.is_zero() {
+        return None;
+    }
+    let (rx, ry) = match mul(&k, &g()) {
+        Point::Infinity => return None, // unreachable for 0 < k < n
+        Point::Affine { x, y } => (x, y),
+    };
+    let r = &rx % n;
+    if r.is_zero() {
+        return None;
+    }
+    let mut recid: u8 = 0;
+    if is_odd(&ry) {
+        recid |= 1;
+    }
+    if &rx >= n {
+        recid |= 2;
+    }
+    let z = z % n;
+    let k_inv = mod_inv(&k, n);
+    let rd = mod_mul(&r, &(d % n), n);
+    let mut s = mod_mul(&k_inv, &mod_add(&z, &rd, n), n);
+    if s.is_zero() {
+        return None;
+    }
+    if low_s && s > half_n() {
+        s = n - &s;
+        recid ^= 1;
+    }
+    Some(Sig { r, s, recid })
+}
+
+/// Standard verification; false if r or s is 0 or >= n, or q is Infinity / not on the curve.
+pub fn verify(q: &Point, z: &BigUint, r: &BigUint, s: &BigUint) -> bool {
+    let n = n_ref();
+    if r.is_zero() || s.is_zero() || r >= n || s >= n {
+        return false;
+    }
+    if *q == Point::Infinity || !is_on_curve(q) {
+        return false;
+    }
+    let z = z % n;
+    let w = mod_inv(s, n);
+    let u1 = mod_mul(&z, &w, n);
+    let u2 = mod_mul(r, &w, n);
+    match add(&mul(&u1, &g()), &mul(&u2, q)) {
+        Point::Infinity => false,
+        Point::Affine { x, .. } => &(x % n) == r,
+    }
+}
+
+/// Public key recovery (SEC1 4.1.6): x = r + (recid>>1)*n must be < p; R = lift_x(x, recid&1);
+/// Q = r^-1 (s R - z G). None if r or s is not in [1, n-1], recid > 3, no such R, or Q = Infinity.
+pub fn recover(z: &BigUint, r: &BigUint, s: &BigUint, recid: u8) -> Option<Point> {
+    let n = n_ref();
+    if recid > 3 {
+        return None;
+    }
+    if r.is_zero() || s.is_zero() || r >= n || s >= n {
+        return None;
+    }
+    let x = if recid & 2 != 0 { r + n } else { r.clone() };
+    // lift_x rejects x >= p
+    let big_r = lift_x(&x, recid & 1 == 1)?;
+    let z = z % n;
+    let minus_z = mod_sub(&BigUint::zero(), &z, n);
+    let sr_minus_zg = add(&mul(s, &big_r), &mul(&minus_z, &g()));
+    let q = mul(&mod_inv(r, n), &sr_minus_zg);
+    match q {
+        Point::Infinity => None,
+        q => Some(q),
+    }
+}
+
+// ---------------------------------------------------------------------------------------------
+// RFC 6979 deterministic nonce (HMAC-SHA256, qlen = hlen = 256)
+// ---------------------------------------------------------------------------------------------
+
+fn hmac256(key: &[u8], msg: &[u8]) -> Vec<u8> {
+    let out = hmac(HashAlg::Sha256, key, msg);
+    assert_eq!(out.len(), 32);
+    out
+}
+
+/// RFC 6979 section 3.2. `d` is the private key (int2octets = be32), `h1` the 32-byte message
+/// hash, bits2octets(h1) = be32(from_be(h1) mod n). `extra` (may be empty) is the additional
+/// data k' of section 3.6, appended after bits2octets(h1) in steps d and f.
+pub fn rfc6979_k(d: &BigUint, h1: &[u8; 32], extra: &[u8]) -> BigUint {
+    let n = n_ref();
+    let x_octets = be32(d);
+    let h_octets = be32(&(from_be(h1) % n));
+
+    // b, c
+    let mut v = vec![0x01u8; 32];
+    let mut k = vec![0x00u8; 32];
+    // d..g: K = HMAC_K(V || sep || int2octets(x) || bits2octets(h1) [|| extra]); V = HMAC_K(V)
+    for sep in [0x00u8, 0x01u8] {
+        let mut m = v.clone();
+        m.push(sep);
+        m.extend_from_slice(&x_octets);
+        m.extend_from_slice(&h_octets);
+        m.extend_from_slice(extra);
+        k = hmac256(&k, &m);
+        v = hmac256(&k, &v);
+    }
+    // h: hlen == qlen, so T is exactly one V block and bits2int(T) = from_be(T)
+    loop {
+        v = hmac256(&k, &v);
+        let candidate = from_be(&v);
+        if !candidate.is_zero() && &candidate < n {
+            return candidate;
+        }
+        let mut m = v.clone();
+        m.push(0x00);
+        k = hmac256(&k, &m);
+        v = hmac256(&k, &v);
+    }
+}
+
+/// Deterministic low-S signature: nonce from `h1_for_k`, message representative from `h1_for_z`.
+pub fn sign_rfc6979(d: &BigUint, h1_for_z: &[u8; 32], h1_for_k: &[u8; 32]) -> Sig {
+    let k = rfc6979_k(d, h1_for_k, &[]);
+    let z = from_be(h1_for_z);
+    sign_with_k(d, &z, &k, true).expect("r == 0 or s == 0: astronomically improbable")
+}
+
+/// ECDH: x coordinate of d*Q as 32 big-endian bytes; None if the product is Infinity.
+pub fn ecdh_x(d: &BigUint, q: &Point) -> Option<[u8; 32]> {
+    match mul(d, q) {
+        Point::Infinity => None,
+        Point::Affine { x, .. } => Some(be32(&x)),
+    }
+}
+
+#[cfg(test)]
+mod tests {
+    use super::*;
+    use crate::refimpl::hashes::sha256;
+
+    fn h(s: &str) -> BigUint {
+        parse_hex(s)
+    }
+
+    fn aff(x: &str, y: &str) -> Point {
+        Point::Affine { x: h(x), y: h(y) }
+    }
+
+    fn two_g() -> Point {
+        aff(
+            "C6047F9441ED7D6D3045406E95C07CD85C778E4B8CEF3CA7ABAC09B95C709EE5",
+            "1AE168FEA63DC339A3C58419466CEAEEF7F632653266D0E1236431A950CFE52A",
+        )
+    }
+
+    fn three_g() -> Point {
+        aff(
+            "F9308A019258C31049344F85F89D5229B531C845836F99B08601F113BCE036F9",
+            "388F7B0F632DE8140FE337E62A37F3566500A99934C2231B6CB9FD7584B8E672",
+        )
+    }
+
+    /// Independent of the windowed/Jacobian `mul`: plain double-and-add with the affine law.
+    fn mul_simple(k: &BigUint, pt: &Point) -> Point {
+        let mut acc = Point::Infinity;
+        for i in (0..k.bits()).rev() {
+            acc = add(&acc, &acc);
+            if k.bit(i) {
+                acc = add(&acc, pt);
+            }
+        }
+        acc
+    }
+
+    fn test_keys() -> Vec<BigUint> {
+        let n = n();
+        vec![
+            BigUint::one(),
+            BigUint::from(2u32),
+            &n - 1u32,
+            &n - 2u32,
+            half_n(),
+            h("f8b8af8ce3c7cca5e300d33939540c10d45ce001b8f252bfbc57ba0342904181"),
+            h("e91671c46231f833a6406ccbea0e3e392c76c167bac1cb013f6f1013980455c2"),
+        ]
+    }
+
+    #[test]
+    fn constants() {
+        let two = BigUint::from(2u32);
+        assert_eq!(p(), two.pow(256) - two.pow(32) - 977u32);
+        assert_eq!(n().bits(), 256);
+        assert_eq!(half_n() * 2u32 + 1u32, n());
+        assert!(is_on_curve(&g()));
+        assert!(is_on_curve(&Point::Infinity));
+        // off-curve / out of range
+        let Point::Affine { x, y } = g() else { unreachable!() };
+        assert!(!is_on_curve(&Point::Affine { x: x.clone(), y: &y + 1u32 }));
+        assert!(!is_on_curve(&Point::Affine { x: &x + p(), y: y.clone() }));
+        assert!(!is_on_curve(&Point::Affine { x, y: &y + p() }));
+    }
+
+    #[test]
+    fn small_multiples() {
+        let g = g();
+        assert!(is_on_curve(&two_g()) && is_on_curve(&three_g()));
+        assert_eq!(add(&g, &g), two_g());
+        assert_eq!(add(&two_g(), &g), three_g());
+        assert_eq!(add(&g, &two_g()), three_g());
+        assert_eq!(mul(&BigUint::from(2u32), &g), two_g());
+        assert_eq!(mul(&BigUint::from(3u32), &g), three_g());
+        assert_eq!(mul(&BigUint::one(), &g), g);
+        assert_eq!(mul(&BigUint::zero(), &g), Point::Infinity);
+        assert_eq!(mul(&BigUint::from(5u32), &Point::Infinity), Point::Infinity);
+        assert_eq!(pubkey(&BigUint::from(3u32)), three_g());
+    }
+
+    #[test]
+    fn group_order() {
+        let g = g();
+        let n = n();
+        assert_eq!(mul(&n, &g), Point::Infinity);
+        assert_eq!(mul(&(&n - 1u32), &g), neg(&g));
+        assert_eq!(mul(&(&n + 1u32), &g), g);
+        assert_eq!(mul(&(&n + &n + 3u32), &g), three_g()); // k larger than 256 bits
+        assert_eq!(add(&g, &neg(&g)), Point::Infinity);
+        assert_eq!(neg(&Point::Infinity), Point::Infinity);
+        assert_eq!(neg(&neg(&g)), g);
+        assert_eq!(add(&g, &Point::Infinity), g);
+        assert_eq!(add(&Point::Infinity, &g), g);
+        assert_eq!(add(&Point::Infinity, &Point::Infinity), Point::Infinity);
+    }
+
+    #[test]
+    fn mul_matches_affine_double_and_add() {
+        let g = g();
+        let mut ks = test_keys();
+        ks.push(BigUint::from(15u32));
+        ks.push(BigUint::from(16u32));
+        ks.push(BigUint::from(17u32));
+        ks.push(BigUint::from(0x1000u32));
+        ks.push(h("0f0f0f0f0f0f0f0f0f0f0f0f0f0f0f0f0f0f0f0f0f0f0f0f0f0f0f0f0f0f0f0f"));
+        ks.push(h("100000000000000000000000000000000000000000000000000000000000000000001"));
+        let base2 = mul(&h("deadbeef"), &g);
+        for k in &ks {
+            for base in [&g, &base2] {
+                let a = mul(k, base);
+                assert!(is_on_curve(&a));
+                assert_eq!(a, mul_simple(k, base), "k = {:x}", k);
+            }
+        }
+        // every table entry / nibble value
+        let mut acc = Point::Infinity;
+        for i in 0u32..40 {
+            assert_eq!(mul(&BigUint::from(i), &g), acc, "i = {}", i);
+            acc = add(&acc, &g);
+        }
+    }
+
+    #[test]
+    fn associativity_and_distributivity() {
+        let g = g();
+        let a = mul(&h("1234567890abcdef1234567890abcdef"), &g);
+        let b = mul(&h("fedcba9876543210fedcba9876543210fedcba98"), &g);
+        let c = mul(&(n() - 12345u32), &g);
+        assert_eq!(add(&add(&a, &b), &c), add(&a, &add(&b, &c)));
+        assert_eq!(add(&add(&a, &a), &b), add(&a, &add(&a, &b)));
+        assert_eq!(add(&add(&g, &two_g()), &three_g()), add(&g, &add(&two_g(), &three_g())));
+        assert_eq!(add(&a, &b), add(&b, &a));
+        // (k1 + k2) G = k1 G + k2 G and k1 (k2 G) = (k1 k2 mod n) G
+        let k1 = h("c0ffee00c0ffee00c0ffee00c0ffee00c0ffee00c0ffee00c0ffee00c0ffee");
+        let k2 = h("badc0de5badc0de5badc0de5badc0de5badc0de5badc0de5badc0de5badc0d");
+        assert_eq!(mul(&((&k1 + &k2) % n()), &g), add(&mul(&k1, &g), &mul(&k2, &g)));
+        assert_eq!(mul(&k1, &mul(&k2, &g)), mul(&((&k1 * &k2) % n()), &g));
+    }
+
+    #[test]
+    fn jacobian_ops_match_affine() {
+        let g = g();
+        let a = mul(&h("1234567890abcdef"), &g);
+        let b = mul(&h("aabbccddeeff00112233"), &g);
+        // non-trivial Z on both sides
+        let ja = jac_double(&to_jac(&a)); // 2a
+        let jb = jac_add(&jac_double(&to_jac(&b)), &to_jac(&b)); // 3b
+        let a2 = add(&a, &a);
+        let b3 = add(&add(&b, &b), &b);
+        assert_eq!(from_jac(&ja), a2);
+        assert_eq!(from_jac(&jb), b3);
+        assert_eq!(from_jac(&jac_add(&ja, &jb)), add(&a2, &b3));
+        // equal points with different Z -> doubling branch
+        let ja_again = jac_add(&to_jac(&a), &to_jac(&a));
+        assert_eq!(from_jac(&jac_add(&ja, &ja_again)), add(&a2, &a2));
+        // opposite points -> infinity
+        assert_eq!(from_jac(&jac_add(&ja, &to_jac(&neg(&a2)))), Point::Infinity);
+        assert_eq!(from_jac(&jac_add(&jac_infinity(), &ja)), a2);
+        assert_eq!(from_jac(&jac_add(&ja, &jac_infinity())), a2);
+        assert_eq!(from_jac(&jac_double(&jac_infinity())), Point::Infinity);
+    }
+
+    #[test]
+    fn be32_and_from_be() {
+        assert_eq!(be32(&BigUint::zero()), [0u8; 32]);
+        let mut one = [0u8; 32];
+        one[31] = 1;
+        assert_eq!(be32(&BigUint::one()), one);
+        assert_eq!(be32(&(BigUint::from(2u32).pow(256) - 1u32)), [0xffu8; 32]);
+        assert_eq!(from_be(&[]), BigUint::zero());
+        assert_eq!(from_be(&[0, 0, 1, 0]), BigUint::from(256u32));
+        assert_eq!(from_be(&be32(&n())), n());
+    }
+
+    #[test]
+    #[should_panic]
+    fn be32_panics_on_overflow() {
+        be32(&BigUint::from(2u32).pow(256));
+    }
+
+    #[test]
+    #[should_panic]
+    fn encode_infinity_panics() {
+        encode_point(&Point::Infinity, true);
+    }
+
+    #[test]
+    fn encode_known() {
+        let mut exp = vec![0x02];
+        exp.extend_from_slice(&be32(&h(GX_HEX)));
+        assert_eq!(encode_point(&g(), true), exp);
+        let mut exp = vec![0x04];
+        exp.extend_from_slice(&be32(&h(GX_HEX)));
+        exp.extend_from_slice(&be32(&h(GY_HEX)));
+        assert_eq!(encode_point(&g(), false), exp);
+        // -G has odd y
+        assert_eq!(encode_point(&neg(&g()), true)[0], 0x03);
+        // 2G's y is even, 3G's y is even: check the raw parity logic instead of trusting memory
+        for pt in [two_g(), three_g()] {
+            let Point::Affine { y, .. } = &pt else { unreachable!() };
+            let expect = if y.bit(0) { 0x03 } else { 0x02 };
+            assert_eq!(encode_point(&pt, true)[0], expect);
+        }
+    }
+
+    #[test]
+    fn encode_decode_round_trip() {
+        for d in test_keys() {
+            let q = pubkey(&d);
+            for compressed in [true, false] {
+                let enc = encode_point(&q, compressed);
+                assert_eq!(enc.len(), if compressed { 33 } else { 65 });
+                assert_eq!(decode_point(&enc), Some(q.clone()));
+            }
+            let Point::Affine { x, y } = &q else { unreachable!() };
+            assert_eq!(lift_x(x, y.bit(0)), Some(q.clone()));
+            assert_eq!(lift_x(x, !y.bit(0)), Some(neg(&q)));
+        }
+    }
+
+    #[test]
+    fn decode_rejects() {
+        // x = 5: 5^3 + 7 = 132 is not a square mod p
+        let mut enc = vec![0x02];
+        enc.extend_from_slice(&be32(&BigUint::from(5u32)));
+        assert_eq!(decode_point(&enc), None);
+        enc[0] = 0x03;
+        assert_eq!(decode_point(&enc), None);
+        assert_eq!(lift_x(&BigUint::from(5u32), false), None);
+        // ... whereas x = 1 is fine (sanity check that small x values are not rejected per se)
+        let mut ok = vec![0x02];
+        ok.extend_from_slice(&be32(&BigUint::one()));
+        let pt1 = decode_point(&ok).expect("x = 1 is on the curve");
+        assert!(is_on_curve(&pt1));
+
+        // x >= p: x = p + 1 would be on the curve if reduced
+        let mut enc = vec![0x02];
+        enc.extend_from_slice(&be32(&(p() + 1u32)));
+        assert_eq!(decode_point(&enc), None);
+        assert_eq!(lift_x(&(p() + 1u32), false), None);
+        let mut enc = vec![0x02];
+        enc.extend_from_slice(&be32(&p()));
+        assert_eq!(decode_point(&enc), None);
+
+        let good_c = encode_point(&g(), true);
+        let good_u = encode_point(&g(), false);
+        assert!(decode_point(&good_c).is_some() && decode_point(&good_u).is_some());
+
+        // uncompressed: wrong y, y + p, x + p (with x + p < 2^256 impossible for G.x, use pt1)
+        let mut bad = good_u.clone();
+        bad[64] ^= 1;
+        assert_eq!(decode_point(&bad), None);
+        let Point::Affine { x: x1, y: y1 } = &pt1 else { unreachable!() };
+        let mut enc = vec![0x04];
+        enc.extend_from_slice(&be32(&(x1 + p())));
+        enc.extend_from_slice(&be32(y1));
+        assert_eq!(decode_point(&enc), None);
+        // y of the negated point is valid, but y swapped with another point's y is not
+        let mut enc = vec![0x04];
+        enc.extend_from_slice(&be32(&h(GX_HEX)));
+        enc.extend_from_slice(&be32(&(p() - h(GY_HEX))));
+        assert_eq!(decode_point(&enc), Some(neg(&g())));
+        let mut enc = vec![0x04];
+        enc.extend_from_slice(&be32(&h(GX_HEX)));
+        enc.extend_from_slice(&be32(y1));
+        assert_eq!(decode_point(&enc), None);
+
+        // identity, empty, hybrid and other prefixes
+        assert_eq!(decode_point(&[]), None);
+        assert_eq!(decode_point(&[0x00]), None);
+        assert_eq!(decode_point(&[0u8; 33]), None);
+        assert_eq!(decode_point(&[0u8; 65]), None);
+        for prefix in [0x00u8, 0x01, 0x05, 0x06, 0x07, 0x08, 0xff] {
+            let mut e = good_u.clone();
+            e[0] = prefix;
+            assert_eq!(decode_point(&e), None, "prefix {:02x} (65 bytes)", prefix);
+        }
+        // hybrid with the "right" parity for G (G.y is even -> 06)
+        let mut e = good_u.clone();
+        e[0] = 0x06;
+        assert_eq!(decode_point(&e), None);
+        for prefix in [0x00u8, 0x01, 0x04, 0x05, 0x06, 0x07] {
+            let mut e = good_c.clone();
+            e[0] = prefix;
+            assert_eq!(decode_point(&e), None, "prefix {:02x} (33 bytes)", prefix);
+        }
+        // 02/03 prefix with 65 bytes
+        let mut e = good_u.clone();
+        e[0] = 0x02;
+        assert_eq!(decode_point(&e), None);
+
+        // wrong lengths
+        assert_eq!(decode_point(&good_c[..32]), None);
+        assert_eq!(decode_point(&good_c[1..]), None); // bare 32-byte x
+        let mut e = good_c.clone();
+        e.push(0);
+        assert_eq!(decode_point(&e), None); // 34
+        assert_eq!(decode_point(&good_u[..64]), None);
+        assert_eq!(decode_point(&good_u[1..]), None); // bare 64-byte x||y
+        let mut e = good_u.clone();
+        e.push(0);
+        assert_eq!(decode_point(&e), None); // 66
+    }
+
+    struct Vector {
+        key: BigUint,
+        msg: &'static str,
+        k: Option<&'static str>,
+        r: &'static str,
+        s: &'static str,
+    }
+
+    fn rfc6979_vectors() -> Vec<Vector> {
+        vec![
+            Vector {
+                key: BigUint::one(),
+                msg: "Satoshi Nakamoto",
+                k: Some("8F8A276C19F4149656B280621E358CCE24F5F52542772691EE69063B74F15D15"),
+                r: "934b1ea10a4b3c1757e2b0c017d0b6143ce3c9a7e6a4a49860d7a6ab210ee3d8",
+                s: "2442ce9d2b916064108014783e923ec36b49743e2ffa1c4496f01a512aafd9e5",
+            },
+            Vector {
+                key: BigUint::one(),
+                msg: "All those moments will be lost in time, like tears in rain. Time to die...",
+                k: Some("38AA22D72376B4DBC472E06C3BA403EE0A394DA63FC58D88686C611ABA98D6B3"),
+                r: "8600dbd41e348fe5c9465ab92d23e3db8b98b873beecd930736488696438cb6b",
+                s: "547fe64427496db33bf66019dacbf0039c04199abb0122918601db38a72cfc21",
+            },
+            Vector {
+                key: n() - 1u32,
+                msg: "Satoshi Nakamoto",
+                k: Some("33A19B60E25FB6F4435AF53A3D42D493644827367E6453928554F43E49AA6F90"),
+                r: "fd567d121db66e382991534ada77a6bd3106f0a1098c231e47993447cd6af2d0",
+                s: "6b39cd0eb1bc8603e159ef5c20a5c8ad685a45b06ce9bebed3f153d10d93bed5",
+            },
+            Vector {
+                key: h("f8b8af8ce3c7cca5e300d33939540c10d45ce001b8f252bfbc57ba0342904181"),
+                msg: "Alan Turing",
+                k: Some("525A82B70E67874398067543FD84C83D30C175FDC45FDEEE082FE13B1D7CFDF1"),
+                r: "7063ae83e7f62bbb171798131b4a0564b956930092b33b07b395615d9ec7e15c",
+                s: "58dfcc1e00a35e1572f366ffe34ba0fc47db1e7189759b9fb233c5b05ab388ea",
+            },
+            Vector {
+                key: h("e91671c46231f833a6406ccbea0e3e392c76c167bac1cb013f6f1013980455c2"),
+                msg: "There is a computer disease that anybody who works with computers knows about. It's a very serious disease and it interferes completely with the work. The trouble with computers is that you 'play' with them!",
+                k: Some("1F4B84C23A86A221D233F2521BE018D9318639D5B8BBD6374A8A59232D16AD3D"),
+                r: "b552edd27580141f3b2a5463048cb7cd3e047b97c9f98076c32dbdf85a68718b",
+                s: "279fa72dd19bfae05577e06c7c0c1900c371fcd5893f7e1d56a37d30174671f6",
+            },
+        ]
+    }
+
+    #[test]
+    fn rfc6979_known_vectors() {
+        for v in rfc6979_vectors() {
+            let h1 = sha256(v.msg.as_bytes());
+            if let Some(k) = v.k {
+                assert_eq!(rfc6979_k(&v.key, &h1, &[]), h(k), "nonce for {:?}", v.msg);
+            }
+            let sig = sign_rfc6979(&v.key, &h1, &h1);
+            assert_eq!(sig.r, h(v.r), "r for {:?}", v.msg);
+            assert_eq!(sig.s, h(v.s), "s for {:?}", v.msg);
+            assert!(sig.s <= half_n());
+            let q = pubkey(&v.key);
+            let z = from_be(&h1);
+            assert!(verify(&q, &z, &sig.r, &sig.s));
+            assert_eq!(recover(&z, &sig.r, &sig.s, sig.recid), Some(q));
+        }
+    }
+
+    #[test]
+    fn rfc6979_extra_data_and_split_digests() {
+        let d = h("f8b8af8ce3c7cca5e300d33939540c10d45ce001b8f252bfbc57ba0342904181");
+        let h1 = sha256(b"Alan Turing");
+        let k0 = rfc6979_k(&d, &h1, &[]);
+        let k1 = rfc6979_k(&d, &h1, &[0u8; 32]);
+        let k2 = rfc6979_k(&d, &h1, &[1u8; 32]);
+        assert!(k0 != k1 && k1 != k2 && k0 != k2);
+        for k in [&k0, &k1, &k2] {
+            assert!(!k.is_zero() && k < &n());
+        }
+        // bits2octets reduces mod n: a digest h and h' = h + n (if it fits) give the same
+        // second HMAC input; check with h = 1 -> h' = n + 1
+        let small = be32(&BigUint::one());
+        let wrapped = be32(&(n() + 1u32));
+        assert_eq!(rfc6979_k(&d, &small, &[]), rfc6979_k(&d, &wrapped, &[]));
+
+        // nonce from a byte-reversed digest, signature over the normal one
+        let mut rev = h1;
+        rev.reverse();
+        let sig = sign_rfc6979(&d, &h1, &rev);
+        let expected = sign_with_k(&d, &from_be(&h1), &rfc6979_k(&d, &rev, &[]), true).unwrap();
+        assert_eq!(sig, expected);
+        assert!(sig != sign_rfc6979(&d, &h1, &h1));
+        assert!(verify(&pubkey(&d), &from_be(&h1), &sig.r, &sig.s));
+    }
+
+    #[test]
+    fn sign_verify_recover_round_trips() {
+        let zs = [
+            from_be(&sha256(b"message one")),
+            from_be(&sha256(b"message two")),
+            BigUint::zero(),
+            n() - 1u32,
+            BigUint::from(2u32).pow(256) - 1u32, // > n: must be reduced
+        ];
+        let nonces = [
+            BigUint::one(),
+            BigUint::from(2u32),
+            n() - 1u32,
+            h("c0ffee00c0ffee00c0ffee00c0ffee00c0ffee00c0ffee00c0ffee00c0ffee00"),
+            h("0123456789abcdef0123456789abcdef0123456789abcdef0123456789abcdef"),
+        ];
+        let mut seen_high_s = false;
+        let mut seen_flip = false;
+        for d in test_keys() {
+            let q = pubkey(&d);
+            for (i, z) in zs.iter().enumerate() {
+                let k = &nonces[i % nonces.len()];
+                let raw = sign_with_k(&d, z, k, false).expect("valid signature");
+                let low = sign_with_k(&d, z, k, true).expect("valid signature");
+                assert_eq!(raw.r, low.r);
+                assert!(low.s <= half_n());
+                if raw.s > half_n() {
+                    seen_high_s = true;
+                    assert_eq!(low.s, n() - &raw.s);
+                    assert_eq!(low.recid, raw.recid ^ 1);
+                    seen_flip = true;
+                } else {
+                    assert_eq!(raw, low);
+                }
+                for sig in [&raw, &low] {
+                    assert!(sig.recid < 4);
+                    assert!(verify(&q, z, &sig.r, &sig.s));
+                    assert_eq!(recover(z, &sig.r, &sig.s, sig.recid), Some(q.clone()));
+                    // the other parity gives a different key (or none)
+                    assert_ne!(recover(z, &sig.r, &sig.s, sig.recid ^ 1), Some(q.clone()));
+                    // altered message
+                    assert!(!verify(&q, &(z + 1u32), &sig.r, &sig.s));
+                    // altered signature
+                    assert!(!verify(&q, z, &sig.r, &((&sig.s + 1u32) % n())));
+                    // wrong key (3Q: never equal to Q or -Q, the latter would verify for z = 0)
+                    assert!(!verify(&mul(&BigUint::from(3u32), &q), z, &sig.r, &sig.s));
+                }
+            }
+        }
+        assert!(seen_high_s && seen_flip, "test data must exercise the low-S branch");
+    }
+
+    #[test]
+    fn verify_and_sign_reject_degenerate_values() {
+        let d = h("e91671c46231f833a6406ccbea0e3e392c76c167bac1cb013f6f1013980455c2");
+        let q = pubkey(&d);
+        let z = from_be(&sha256(b"degenerate"));
+        let k = h("1f4b84c23a86a221d233f2521be018d9318639d5b8bbd6374a8a59232d16ad3d");
+        let sig = sign_with_k(&d, &z, &k, true).unwrap();
+        let zero = BigUint::zero();
+        assert!(verify(&q, &z, &sig.r, &sig.s));
+        assert!(!verify(&q, &z, &zero, &sig.s));
+        assert!(!verify(&q, &z, &sig.r, &zero));
+        assert!(!verify(&q, &z, &n(), &sig.s));
+        assert!(!verify(&q, &z, &sig.r, &n()));
+        assert!(!verify(&q, &z, &(&sig.r + n()), &sig.s)); // r + n is not accepted
+        assert!(!verify(&q, &z, &sig.r, &(&sig.s + n())));
+        assert!(!verify(&q, &(&z + 1u32), &sig.r, &sig.s));
+        assert!(verify(&q, &(&z + n()), &sig.r, &sig.s)); // z is taken mod n
+        assert!(!verify(&Point::Infinity, &z, &sig.r, &sig.s));
+        let Point::Affine { x, y } = &q else { unreachable!() };
+        assert!(!verify(&Point::Affine { x: x.clone(), y: y + 1u32 }, &z, &sig.r, &sig.s));
+        // high-S twin also verifies (verify does not enforce low S)
+        assert!(verify(&q, &z, &sig.r, &(n() - &sig.s)));
+
+        assert_eq!(sign_with_k(&d, &z, &zero, true), None);
+        assert_eq!(sign_with_k(&d, &z, &n(), true), None);
+        // s == 0: choose z = -r d mod n
+        let r = sig.r.clone();
+        let z0 = (n() - (&r * &d) % n()) % n();
+        assert_eq!(sign_with_k(&d, &z0, &k, false), None);
+        // k and k + n are the same nonce
+        assert_eq!(sign_with_k(&d, &z, &(&k + n()), true), Some(sig.clone()));
+
+        assert_eq!(recover(&z, &zero, &sig.s, 0), None);
+        assert_eq!(recover(&z, &sig.r, &zero, 0), None);
+        assert_eq!(recover(&z, &n(), &sig.s, 0), None);
+        assert_eq!(recover(&z, &sig.r, &n(), 0), None);
+        assert_eq!(recover(&z, &sig.r, &sig.s, 4), None);
+        // recid bit1: r + n must be < p; p - n is about 2^128, so for this r it is not
+        assert!(&sig.r + n() >= p());
+        assert_eq!(recover(&z, &sig.r, &sig.s, sig.recid | 2), None);
+        // r that is not an x coordinate: 5
+        assert_eq!(recover(&z, &BigUint::from(5u32), &sig.s, 0), None);
+        // small r with bit1 set: x = r + n < p is allowed when it is on the curve
+        let mut found = false;
+        for r in 1u32..50 {
+            let r = BigUint::from(r);
+            if let Some(big_r) = lift_x(&(&r + n()), false) {
+                // construct a signature with this R: s = r (any), Q = r^-1 (s R - z G)
+                let s = BigUint::from(7u32);
+                let q2 = recover(&z, &r, &s, 2).expect("recoverable");
+                assert!(is_on_curve(&q2));
+                assert!(verify(&q2, &z, &r, &s));
+                let Point::Affine { x, .. } = big_r else { unreachable!() };
+                assert!(x >= n());
+                found = true;
+                break;
+            }
+        }
+        assert!(found);
+    }
+
+    #[test]
+    fn ecdh_symmetry() {
+        let keys = test_keys();
+        for a in &keys {
+            for b in &keys[4..] {
+                let qa = pubkey(a);
+                let qb = pubkey(b);
+                let s1 = ecdh_x(a, &qb).unwrap();
+                let s2 = ecdh_x(b, &qa).unwrap();
+                assert_eq!(s1, s2);
+                let Point::Affine { x, .. } = pubkey(&((a * b) % n())) else { unreachable!() };
+                assert_eq!(s1, be32(&x));
+            }
+        }
+        assert_eq!(ecdh_x(&n(), &g()), None);
+        assert_eq!(ecdh_x(&BigUint::one(), &Point::Infinity), None);
+    }
+
+    #[test]
+    fn timing_of_one_mul() {
+        let g = g();
+        let mut k = h("e91671c46231f833a6406ccbea0e3e392c76c167bac1cb013f6f1013980455c2");
+        let rounds = 50u32;
+        let start = std::time::Instant::now();
+        let mut acc = Point::Infinity;
+        for _ in 0..rounds {
+            acc = add(&acc, &mul(&k, &g));
+            k = (&k * 3u32 + 1u32) % n();
+        }
+        let per = start.elapsed() / rounds;
+        assert!(is_on_curve(&acc));
+        eprintln!("secp::mul: {:?} per scalar multiplication (incl. one affine add)", per);
+    }
+}
